@@ -85,7 +85,7 @@ AfterRecs == <<P!Field(B("int"), B("q"), B("r")),
                         <<P!LineMapping(<<1>>, <<2>>, <<<<3>>>>, <<<<4>>>>)>>),
                P!Class(B("p.Q"), B("r"))>>
 \* malformed lines are followed by all three continuations, well-formed ones by the first
-EmbedSet(x) == IF x.mal = "none" THEN {1} ELSE {1, 2, 3}
+EmbedSet(x) == IF x.mal \in {"none", "zeropad"} THEN {1} ELSE {1, 2, 3}
 AgreesEmbedded(x) ==
   x.term # <<>> =>
     \A a \in EmbedSet(x) :
